@@ -13,6 +13,29 @@ TARGET = {"channel": lambda: DBM.CHANNELDB_TARGET_VERSION, "usage": lambda: DBM.
 PATH = "/data/relay.sqlite"
 
 
+# files next to the database that the entry points were not asked about (the server's other database, an
+# unrelated one): never to be touched.  The first is named like the database plus a dot-suffix — what a
+# sloppy "stale temporary" pattern would match, but not mkstemp's 8 random characters.
+NEIGHBOURS = ["relay.sqlite.usage", "relay.sqlitex", "other.sqlite"]
+
+
+def add_neighbours(fs):
+    import os
+    marks = {}
+    for nm in NEIGHBOURS:
+        st = fresh_reference("usage", DBM.USAGEDB_TARGET_VERSION)
+        st.add_row("version", True, version=DBM.USAGEDB_TARGET_VERSION)
+        st.seal()
+        f = File("db", st)
+        fs.files[os.path.join(os.path.dirname(PATH), nm)] = f
+        marks[os.path.join(os.path.dirname(PATH), nm)] = f
+    return marks
+
+
+def neighbours_kept(fs, marks):
+    return all(fs.files.get(p) is f and f.writes == 0 and f.kind == "db" for p, f in marks.items())
+
+
 def fresh_reference(name, version):
     st = RelStore("ref")
     st.load_schema(DBM.get_schema(name, version))
@@ -84,8 +107,11 @@ def rows_preserved(orig, now, tables):
     """every present row of `orig` is present and unchanged in `now` (slot-wise: rows are only appended)"""
     parts = []
     for t in tables:
-        if t not in now.tables or len(now.tables[t]) < len(orig.tables[t]):
-            return False
+        if now is None or t not in now.tables:
+            parts += [z3.Not(a.p) for a in orig.tables[t]]       # nothing there: fine only if nothing was there
+            continue
+        # slots beyond what the file now holds: their rows are gone
+        parts += [z3.Not(a.p) for a in orig.tables[t][len(now.tables[t]):]]
         for a, q in zip(orig.tables[t], now.tables[t]):
             parts.append(Implies(a.p, And(q.p, *[a.v[c] == q.v[c] for c in a.v], *[a.n[c] == q.n[c] for c in a.n])))
             parts.append(Implies(z3.Not(a.p), z3.Not(q.p)))
@@ -115,8 +141,10 @@ def db_create_crash(e, name="channel", entry="get"):
           "create": (DBM.create_channel_db if name == "channel" else DBM.create_usage_db),
           "upgrade": (DBM.create_or_upgrade_channel_db if name == "channel" else DBM.create_or_upgrade_usage_db)}[entry]
     fs0 = FS()
+    nb0 = add_neighbours(fs0)
     db, ex, _ = run_entry(fs0, fn, PATH)
     A = {}
+    A["C19.neighbours_untouched"] = neighbours_kept(fs0, nb0)
     A["C19.creates"] = And(ex is None, db is not None,
                            complete_db(file_store(fs0, PATH), name, target) if file_store(fs0, PATH) else False,
                            complete_db(db, name, target) if db is not None else False)
@@ -126,6 +154,7 @@ def db_create_crash(e, name="channel", entry="get"):
     n = len(fs0.events)
     c = e.choose(n, "crash_at")
     fs1 = FS(crash_at=c)
+    nb1 = add_neighbours(fs1)
     _, ex1, crashed = run_entry(fs1, fn, PATH)
     left = fs1.files.get(PATH)
     # interrupted before the rename took effect: nothing at the path; after it: a complete database
@@ -135,17 +164,20 @@ def db_create_crash(e, name="channel", entry="get"):
     db2, ex2, _ = run_entry(fs1, fn if entry != "create" or left is None else (lambda p: DBM._get_db(p, name, target)), PATH)
     st = file_store(fs1, PATH)
     A["C19.next_start"] = And(ex2 is None, st is not None, complete_db(st, name, target) if st is not None else False)
+    A["C19.neighbours_untouched"] = A["C19.neighbours_untouched"] and neighbours_kept(fs1, nb1)
+    nb_ok = neighbours_kept(fs1, nb1)
     restart_entry = entry if (entry != "create" or left is None) else "get"
     ok2 = A["C19.next_start"]
 
     def replayer(dec):
         pred = dict(first="Crash" if crashed else (type(ex1).__name__ if ex1 else None),
                     path_exists_after_first=(left is not None), restart=type(ex2).__name__ if ex2 else None,
-                    events_first=[k for k, _ in fs0.events[:c + 1]])
+                    events_first=[k for k, _ in fs0.events[:c + 1]], neighbours_kept=nb_ok)
         if ex2 is None:
             pred["final_schema_ok"] = st is not None and catalog_of(st) == catalog_of(fresh_reference(name, target))
             pred["final_version_ok"] = tv(dec, ok2)
-        return dict(kind="db", name=name, entry=entry, initial=None, crash_at=c, restart_entry=restart_entry, predicted=pred)
+        return dict(kind="db", name=name, entry=entry, initial=None, crash_at=c, restart_entry=restart_entry,
+                    neighbours=NEIGHBOURS, predicted=pred)
     return PathResult(A, info=dict(name=name, entry=entry, crash_at=c, event=fs0.events[c], crashed=crashed,
                                    left=sorted(fs1.files)), replayer=replayer)
 
@@ -211,6 +243,7 @@ def db_open_existing(e, name="channel", kind="current"):
         fs.files[PATH] = File("junk")
     elif kind == "empty":
         fs.files[PATH] = File("db", None)
+    nb = add_neighbours(fs)
     before = dict(fs.files)
     writes_before = {p: f.writes for p, f in fs.files.items()}
     entry = [lambda p: DBM._get_db(p, name, target), DBM.open_existing_db,
@@ -220,6 +253,8 @@ def db_open_existing(e, name="channel", kind="current"):
     untouched = (sorted(fs.files) == sorted(before) and all(fs.files[p] is before[p] for p in before) and
                  all(fs.files[p].writes == writes_before[p] for p in before))
     A["C19.file_untouched"] = untouched
+    A["C19.neighbours_untouched"] = neighbours_kept(fs, nb)
+    nb_ok = A["C19.neighbours_untouched"]
     if kind == "current":
         A["C19.opens"] = (ex is None and db is not None)
         if db is not None:
@@ -244,10 +279,11 @@ def db_open_existing(e, name="channel", kind="current"):
         else:
             init = kind
         pred = dict(first=type(ex).__name__ if ex else None, unchanged_after_first=bool(untouched),
-                    events_first=[k for k, _ in fs.events])
+                    events_first=[k for k, _ in fs.events], neighbours_kept=nb_ok)
         if kind == "current":
             pred["rows_kept_after_first"] = True
-        return dict(kind="db", name=name, entry=which, initial=init, crash_at=None, restart_entry=None, predicted=pred)
+        return dict(kind="db", name=name, entry=which, initial=init, crash_at=None, restart_entry=None,
+                    neighbours=NEIGHBOURS, predicted=pred)
     return PathResult(A, info=dict(name=name, kind=kind, exc=type(ex).__name__ if ex else None,
                                    events=[k for k, _ in fs.events]), replayer=replayer)
 
@@ -297,6 +333,7 @@ def db_upgrade(e, rows=2):
         st.add_row("version", True, version=old)
         st.seal()
         fs.files[PATH] = File("db", st)
+        fs.nb = add_neighbours(fs)
         return fs, st.committed
     cache = {}
     fn = lambda p: DBM._get_db(p, "usage", target)
@@ -325,7 +362,7 @@ def db_upgrade(e, rows=2):
     fs1, orig1 = make_fs(crash_at=c)
     _, ex1, crashed = run_entry(fs1, fn, PATH)
     st = file_store(fs1, PATH)
-    A["C20.no_record_lost"] = (st is not None and bool_or_term(rows_preserved(orig1, st.committed, data_tables)))
+    A["C20.no_record_lost"] = rows_preserved(orig1, st.committed if st is not None else None, data_tables)
     fs1.power_off()
     db2, ex2, _ = run_entry(fs1, fn, PATH)
     st2 = file_store(fs1, PATH)
@@ -338,27 +375,30 @@ def db_upgrade(e, rows=2):
     A["C20.backup_after_restart"] = (bk1 is not None and bk1.kind == "db" and bk1.store is not None and
                                      bool_or_term(same_content(orig1, bk1.store.committed)))
     bk_ok = A["C20.backup_after_restart"]
+    A["C19.neighbours_untouched"] = neighbours_kept(fs0, fs0.nb) and neighbours_kept(fs1, fs1.nb)
+    nb0_ok, nb1_ok = neighbours_kept(fs0, fs0.nb), neighbours_kept(fs1, fs1.nb)
     kept1, done2 = A["C20.no_record_lost"], A["C20.restart_completes"]
     up0, bk0 = A["C20.upgrades"], A["C20.backup"]
 
     def replayer(dec):
         init = dict(version=old, schema_version=old, rows=conc_rows(dec, orig))
-        p0 = dict(first=type(ex).__name__ if ex else None, events_first=[k for k, _ in fs0.events])
+        p0 = dict(first=type(ex).__name__ if ex else None, events_first=[k for k, _ in fs0.events],
+                  neighbours_kept=nb0_ok)
         if ex is None:
             p0["backup_identical"] = tv(dec, bk0)
             p0["rows_kept_after_first"] = tv(dec, up0)
         p1 = dict(first="Crash" if crashed else (type(ex1).__name__ if ex1 else None),
                   rows_kept_after_first=tv(dec, kept1), restart=type(ex2).__name__ if ex2 else None,
-                  events_first=[k for k, _ in fs0.events[:c + 1]])
+                  events_first=[k for k, _ in fs0.events[:c + 1]], neighbours_kept=nb1_ok)
         if ex2 is None:
             p1["final_schema_ok"] = st2 is not None and catalog_of(st2) == catalog_of(fresh_reference("usage", target))
             p1["final_rows_kept"] = tv(dec, done2)
             p1["backup_identical_after_restart"] = tv(dec, bk_ok)
         return dict(multi=[
             dict(kind="db", name="usage", entry="get", initial=init, crash_at=None, restart_entry=None,
-                 check_backup=True, predicted=p0),
+                 check_backup=True, neighbours=NEIGHBOURS, predicted=p0),
             dict(kind="db", name="usage", entry="get", initial=init, crash_at=c, restart_entry="get",
-                 check_backup=True, predicted=p1)])
+                 check_backup=True, neighbours=NEIGHBOURS, predicted=p1)])
     return PathResult(A, info=dict(crash_at=c, event=fs0.events[c], exc=type(ex2).__name__ if ex2 else None,
                                    msg=str(ex2)[:80] if ex2 else None), replayer=replayer)
 
